@@ -10,7 +10,7 @@ def U(pkg, run, quick, thorough, **kw):
     return d
 
 
-HOOK_COMMITS = ["7d5fc3e", "46899cc", "21038df", "b1e6abc"]
+HOOK_COMMITS = ["7d5fc3e", "46899cc", "21038df", "b1e6abc", "d21a4f2"]
 
 # Properties without a registered check yet (kept current; see DESIGN.md).
 NOT_APPLICABLE = {pid: "check not built yet in this round (planned, DESIGN.md section 4)" for pid in
@@ -162,7 +162,7 @@ CHECKS = {
             U("props/sys", "TestC12MaxJobs", (1500, 3), (20000, 4)),
             U("props/sys", "TestC12SystemReqs", (20000, 1), (300000, 2)),
             U("props/run", "TestE2Resources", (40, 6), (1200, 8)),
-            U("props/run", "TestE2Cluster", (8, 8), (60, 8)),
+            U("props/run", "TestE2Cluster", (20, 8), (300, 8)),
         ],
         "floors": {"quick": {"semaphore": 5000, "maxjobs": 2000, "systemreqs": 10000, "e2-resources": 150, "jobs-overlapped": 40, "e2-cluster": 10}},
     },
